@@ -16,16 +16,16 @@
     proved for ANY embedding [emb] into ValueModel's values and any class of
     values [okv] on which the embedding respects both tests (Section
     hypotheses [emb_equal], [emb_eqb]); it is instantiated for strings,
-    integers, booleans and byte strings ([scalar_emb]).  On doubles the second
-    hypothesis FAILS -- [pipe_proto_equal_zero_differ]: PipelineModel compares
-    the bit patterns, CacheModel (following proto.Equal, which uses == on
-    floats and treats NaNs as equal) identifies +0 and -0.
+    integers, booleans, byte strings, JSON/ASCII/proto bytes and -- since
+    PipelineModel's [tv_eqb] follows proto.Equal on floating point (== with
+    NaN = NaN) -- floats and doubles ([scalar_emb], [scalar_ok]).
 
     Proved: [pipe_update_one_sim] (Target.gnmiUpdate + t.client(leaf) for one
     update): same verdict, related states afterwards, the subscriber is fed
-    exactly when CacheModel announces.  Function-level differences outside the
-    pipeline's reach ([ingest] always stamps target and origin, so the index
-    path is never empty): [pipe_empty_index_differ]. *)
+    exactly when CacheModel announces; [pipe_delete_one_sim];
+    [pipe_target_gnmi_update_sim] (one whole notification);
+    [pipe_reset_roots_sim] (the root-cutting loop of Target.Reset).  The empty index path is an
+    ordinary case of these theorems (it was a difference, see the end). *)
 From Gnmi Require Import Base.Prelude CTree.CTreeModel CTree.CTreeProofs CTree.CTreeTheorems
   Path.PathModel Path.PathProofs Value.ValueModel Cache.CacheModel.
 From Gnmi Require Pipeline.PipelineModel Subscribe.SubModel.
@@ -126,7 +126,6 @@ Theorem pipe_update_one_sim w r t now :
   let R := gnmi_update1 t now (rec_notif r) in
   match P.w_fault w' with
   | Some (P.FPanic 1%N) => exists x, snd R = Panic x
-  | Some (P.FPanic 2%N) => snd R = Err err_invalid_path       (* see [pipe_empty_index_differ] *)
   | Some (P.FPanic _) => False
   | Some (P.FUnmodelled _) => True
   | None =>
@@ -153,7 +152,8 @@ Proof.
   2:{ cbn. rewrite Hf. cbn. eauto. }
   cbn [ok_to_option].
   destruct p as [|k rest].
-  { cbn. rewrite Hf. reflexivity. }
+  { (* empty index path: "invalid path", dropped by the pipeline, nothing changes *)
+    cbn. rewrite Hf. split; [exact HR|reflexivity]. }
   unfold update_pre. change P.meta_root with "meta". change md_root with "meta".
   destruct (String.eqb k "meta") eqn:Hk.
   { cbn. rewrite Hf. exact I. }
@@ -321,7 +321,6 @@ Theorem pipe_delete_one_sim ts pre w d t :
   let R := gnmi_remove t (Notif ts (Some (pipe_gp pre)) None [] [pipe_gp d] false) in
   match P.w_fault w' with
   | Some (P.FPanic 1%N) => exists x, snd R = Panic x
-  | Some (P.FPanic 2%N) => exists removed, snd R = Ok removed      (* see docs/Glue.md: no panic in the code *)
   | Some (P.FPanic _) => False
   | Some (P.FUnmodelled _) => True
   | None =>
@@ -346,26 +345,23 @@ Proof.
       destruct (to_strings true (pipe_gp pre) ++ to_strings false (pipe_gp d)); discriminate. }
   2:{ cbn. rewrite Hf. cbn. eauto. }
   cbn [ok_to_option].
-  destruct p as [|k rest].
-  { cbn [P.w_fail P.w_fault]. rewrite Hf. cbn.
-    destruct (map snd (snd (delete_cond (t_tree t) [] (fun v => n_ts v <? ts)))); cbn; eauto. }
   change P.meta_root with "meta".
-  destruct (String.eqb k "meta") eqn:Hk.
+  destruct (match p with h :: _ => String.eqb h "meta" | [] => false end) eqn:Hm.
   { cbn. rewrite Hf. exact I. }
   cbn [P.w_fault].
-  assert (Ht1 : match k :: rest with
+  assert (Ht1 : match p with
                 | p0 :: k0 :: _ => if (p0 =? md_root)%string then set_meta t (md_reset_entry (t_meta t) k0) else t
                 | _ => t
                 end = t).
-  { destruct rest; [reflexivity|]. change md_root with "meta". now rewrite Hk. }
+  { destruct p as [|p0 [|k0 r0]]; try reflexivity. change md_root with "meta". now rewrite Hm. }
   rewrite Ht1.
   destruct HR as [Hwf HwfT Hlook Hheap Huniq Hfresh Hcfg].
   set (condP := fun g => match P.hget (P.w_heap w) g with Some r => P.lr_ts r <? ts | None => false end).
   set (condT := fun v : notif => n_ts v <? n_ts (Notif ts (Some (pipe_gp pre)) None [] [pipe_gp d] false)).
-  destruct (delete_spec (P.w_tree w) (k :: rest) condP Hwf) as (HwfP' & HlP & HrP & HnP).
-  destruct (delete_spec (t_tree t) (k :: rest) condT HwfT) as (HwfT' & HlT & HrT & HnT).
-  set (rP := delete_cond (P.w_tree w) (k :: rest) condP) in *.
-  set (rT := delete_cond (t_tree t) (k :: rest) condT) in *.
+  destruct (delete_spec (P.w_tree w) p condP Hwf) as (HwfP' & HlP & HrP & HnP).
+  destruct (delete_spec (t_tree t) p condT HwfT) as (HwfT' & HlT & HrT & HnT).
+  set (rP := delete_cond (P.w_tree w) p condP) in *.
+  set (rT := delete_cond (t_tree t) p condT) in *.
   assert (Hcond : forall g r0, P.hget (P.w_heap w) g = Some r0 -> condT (rec_notif r0) = condP g).
   { intros g r0 Hg. unfold condT, condP. rewrite Hg. reflexivity. }
   assert (HRp : forall sub t', t_tree t' = fst rT -> t_cfg t' = t_cfg t ->
@@ -374,12 +370,12 @@ Proof.
   { intros sub t' Ht' Hc'.
     assert (Hsub : forall s g, lookup (fst rP) s = Some g -> lookup (P.w_tree w) s = Some g).
     { intros s g. rewrite HlP. unfold sel. destruct (lookup (P.w_tree w) s) as [g'|]; [|discriminate].
-      destruct (qmatch (k :: rest) s && condP g'); [discriminate|auto]. }
+      destruct (qmatch p s && condP g'); [discriminate|auto]. }
     constructor; cbn [P.w_tree P.w_heap P.w_gen]; rewrite ?Ht', ?Hc'; try assumption.
     - intros s. rewrite HlT, HlP, Hlook. unfold sel.
       destruct (lookup (P.w_tree w) s) as [g|] eqn:Hs; [|reflexivity].
       destruct (Hheap _ _ Hs) as (r0 & Hr0 & _). rewrite Hr0. cbn [option_map].
-      rewrite (Hcond _ _ Hr0). destruct (qmatch (k :: rest) s && condP g); [reflexivity|].
+      rewrite (Hcond _ _ Hr0). destruct (qmatch p s && condP g); [reflexivity|].
       now rewrite Hr0.
     - intros s g Hs. eapply Hheap; eauto.
     - intros s s' g H1 H2. eapply Huniq; eauto.
@@ -407,11 +403,66 @@ Proof.
     apply (Permutation_map snd) in Hp. rewrite !map_map in Hp. cbn [snd] in Hp.
     now rewrite map_map. }
   destruct (map snd (snd rT)) as [|x xs] eqn:Hrem; cbn [fst snd].
-  - split; [apply HRp; reflexivity|]. exists (k :: rest), []. split; [reflexivity|]. split; [reflexivity|].
+  - split; [apply HRp; reflexivity|]. exists p, []. split; [reflexivity|]. split; [reflexivity|].
     split; [exact Hperm|reflexivity].
-  - split; [apply HRp; reflexivity|]. exists (k :: rest), (x :: xs). split; [reflexivity|]. split; [reflexivity|].
+  - split; [apply HRp; reflexivity|]. exists p, (x :: xs). split; [reflexivity|]. split; [reflexivity|].
     split; [exact Hperm|reflexivity].
 Qed.
+
+(** * Cache.Reset / Target.Reset: cutting the roots off the tree
+
+    [P.cache_reset] deletes every root other than "meta" from the target's
+    tree ([ctree.Delete [r]], no per-leaf notifications) and announces one
+    delete of <root>/* each.  CacheModel.target_reset first clears and
+    re-exports the metadata (which writes "meta" leaves, a subtree the
+    pipeline model projects away), then does the same loop.  Related here: the
+    loop itself -- deleting the same roots on both sides keeps the states
+    related -- and the announcement. *)
+
+Lemma Rp_delete_cond w t q condP condT sub :
+  (forall g r0, P.hget (P.w_heap w) g = Some r0 -> condT (rec_notif r0) = condP g) ->
+  Rp w t ->
+  Rp {| P.w_tree := fst (delete_cond (P.w_tree w) q condP); P.w_heap := P.w_heap w;
+        P.w_gen := P.w_gen w; P.w_sub := sub; P.w_fault := P.w_fault w |}
+     (set_tree t (fst (delete_cond (t_tree t) q condT))).
+Proof.
+  intros Hcond [Hwf HwfT Hlook Hheap Huniq Hfresh Hcfg].
+  destruct (delete_spec (P.w_tree w) q condP Hwf) as (HwfP' & HlP & _).
+  destruct (delete_spec (t_tree t) q condT HwfT) as (HwfT' & HlT & _).
+  assert (Hsub : forall s g, lookup (fst (delete_cond (P.w_tree w) q condP)) s = Some g ->
+                             lookup (P.w_tree w) s = Some g).
+  { intros s g. rewrite HlP. unfold sel. destruct (lookup (P.w_tree w) s) as [g'|]; [|discriminate].
+    destruct (qmatch q s && condP g'); [discriminate|auto]. }
+  constructor; cbn [P.w_tree P.w_heap P.w_gen t_tree set_tree t_cfg]; try assumption.
+  - intros s. rewrite HlT, HlP, Hlook. unfold sel.
+    destruct (lookup (P.w_tree w) s) as [g|] eqn:Hs; [|reflexivity].
+    destruct (Hheap _ _ Hs) as (r0 & Hr0 & _). rewrite Hr0. cbn [option_map].
+    rewrite (Hcond _ _ Hr0). destruct (qmatch q s && condP g); [reflexivity|].
+    now rewrite Hr0.
+  - intros s g Hs. eapply Hheap; eauto.
+  - intros s s' g H1 H2. eapply Huniq; eauto.
+  - intros s g Hs. eapply Hfresh; eauto.
+Qed.
+
+(** the loop of Target.Reset over any list of roots *)
+Theorem pipe_reset_roots_sim roots : forall w t,
+  Rp w t ->
+  Rp {| P.w_tree := fold_left (fun tr r => fst (CTreeModel.delete tr [r])) roots (P.w_tree w);
+        P.w_heap := P.w_heap w; P.w_gen := P.w_gen w; P.w_sub := P.w_sub w; P.w_fault := P.w_fault w |}
+     (set_tree t (fold_left (fun tr r => fst (CTreeModel.delete tr [r])) roots (t_tree t))).
+Proof.
+  induction roots as [|r roots IH]; intros w t HR.
+  - cbn [fold_left]. destruct HR. constructor; assumption.
+  - cbn [fold_left].
+    pose proof (Rp_delete_cond w t [r] (fun _ => true) (fun _ => true) (P.w_sub w) (fun _ _ _ => eq_refl) HR) as H1.
+    apply IH in H1. exact H1.
+Qed.
+
+(** the announcement for one root: the delete notification Target.Reset
+    builds (the root's name travels in the ORIGIN field of the prefix) *)
+Lemma pipe_root_delete_agree name r :
+  del_notif (P.root_delete name r) = delete_noti name r 0 ["*"].
+Proof. reflexivity. Qed.
 
 (** * One whole notification: Target.GnmiUpdate (non-atomic) *)
 
@@ -668,6 +719,68 @@ End Emb.
 
 (** * Instantiation: the values on which the two models' equality tests agree *)
 
+(** IEEE bit patterns: ValueModel keeps them as [N] and tests fields with
+    [N.land]/[N.shiftr]; PipelineModel keeps them as [Z] and uses [/], [mod].
+    On non-negative patterns the tests are the same. *)
+Lemma N_eqb_Z a b : N.eqb a b = (Z.of_N a =? Z.of_N b).
+Proof.
+  destruct (N.eqb_spec a b) as [->|H]; [now rewrite Z.eqb_refl|].
+  symmetry. apply Z.eqb_neq. intros E. apply H. now apply N2Z.inj.
+Qed.
+
+Lemma land_ones_Z n k : Z.of_N (N.land n (N.ones k)) = Z.of_N n mod 2 ^ Z.of_N k.
+Proof. rewrite N.land_ones, N2Z.inj_mod, N2Z.inj_pow. reflexivity. Qed.
+
+Lemma shiftr_Z n k : Z.of_N (N.shiftr n k) = Z.of_N n / 2 ^ Z.of_N k.
+Proof. rewrite N.shiftr_div_pow2, N2Z.inj_div, N2Z.inj_pow. reflexivity. Qed.
+
+Lemma f64_nan_bridge x : 0 <= x -> f64_is_nan (Z.to_N x) = P.f_nan 11 52 x.
+Proof.
+  intros Hx. unfold f64_is_nan, f64_exp, f64_man, P.f_nan.
+  change 2047%N with (N.ones 11). change (2 ^ 52 - 1)%N with (N.ones 52).
+  rewrite !N_eqb_Z, !land_ones_Z, shiftr_Z, Z2N.id by assumption. reflexivity.
+Qed.
+
+Lemma f32_nan_bridge x : 0 <= x -> f32_is_nan (Z.to_N x) = P.f_nan 8 23 x.
+Proof.
+  intros Hx. unfold f32_is_nan, f32_exp, f32_man, P.f_nan.
+  change 255%N with (N.ones 8). change (2 ^ 23 - 1)%N with (N.ones 23).
+  rewrite !N_eqb_Z, !land_ones_Z, shiftr_Z, Z2N.id by assumption. reflexivity.
+Qed.
+
+Lemma f64_zero_bridge x : 0 <= x -> f64_is_zero (Z.to_N x) = (x mod 2 ^ 63 =? 0).
+Proof.
+  intros Hx. unfold f64_is_zero. change (2 ^ 63 - 1)%N with (N.ones 63).
+  rewrite N_eqb_Z, land_ones_Z, Z2N.id by assumption. reflexivity.
+Qed.
+
+Lemma f32_zero_bridge x : 0 <= x -> f32_is_zero (Z.to_N x) = (x mod 2 ^ 31 =? 0).
+Proof.
+  intros Hx. unfold f32_is_zero. change (2 ^ 31 - 1)%N with (N.ones 31).
+  rewrite N_eqb_Z, land_ones_Z, Z2N.id by assumption. reflexivity.
+Qed.
+
+Lemma to_N_eqb x y : 0 <= x -> 0 <= y -> N.eqb (Z.to_N x) (Z.to_N y) = (x =? y).
+Proof. intros Hx Hy. now rewrite N_eqb_Z, !Z2N.id. Qed.
+
+Lemma f64_eq_bridge a b : 0 <= a -> 0 <= b -> f64_eq (Z.to_N a) (Z.to_N b) = P.f_eq 11 52 a b.
+Proof.
+  intros Ha Hb. unfold f64_eq, P.f_eq.
+  rewrite !f64_nan_bridge, !f64_zero_bridge, to_N_eqb by assumption.
+  unfold P.f_nan. change (11 + 52) with 63.
+  destruct (_ || _); [reflexivity|].
+  destruct (a mod 2 ^ 63 =? 0), (b mod 2 ^ 63 =? 0), (a =? b); reflexivity.
+Qed.
+
+Lemma f32_eq_bridge a b : 0 <= a -> 0 <= b -> f32_eq (Z.to_N a) (Z.to_N b) = P.f_eq 8 23 a b.
+Proof.
+  intros Ha Hb. unfold f32_eq, P.f_eq.
+  rewrite !f32_nan_bridge, !f32_zero_bridge, to_N_eqb by assumption.
+  unfold P.f_nan. change (8 + 23) with 31.
+  destruct (_ || _); [reflexivity|].
+  destruct (a mod 2 ^ 31 =? 0), (b mod 2 ^ 31 =? 0), (a =? b); reflexivity.
+Qed.
+
 Definition scalar_emb (v : P.tv) : ValueModel.tv :=
   match v with
   | P.TVString s => TVString s
@@ -688,22 +801,16 @@ Definition scalar_ok (v : P.tv) : Prop :=
   match v with
   | P.TVString _ | P.TVInt _ | P.TVBool _ | P.TVBytes _
   | P.TVJson _ | P.TVJsonIetf _ | P.TVAscii _ | P.TVProto _ => True
-  | P.TVUint z => 0 <= z
+  | P.TVUint z | P.TVFloat z | P.TVDouble z => 0 <= z
   | _ => False
   end.
-
-Lemma to_N_eqb x y : 0 <= x -> 0 <= y -> N.eqb (Z.to_N x) (Z.to_N y) = (x =? y).
-Proof.
-  intros Hx Hy. destruct (Z.eqb_spec x y) as [->|Hne]; [apply N.eqb_refl|].
-  apply N.eqb_neq. intros H. apply Hne. apply (f_equal Z.of_N) in H. now rewrite !Z2N.id in H.
-Qed.
 
 Lemma scalar_emb_equal a b : scalar_ok a -> scalar_ok b ->
   value_equal (Some (scalar_emb a)) (Some (scalar_emb b)) = P.tv_equal a b.
 Proof.
   intros Ha Hb. unfold value_equal, ValueModel.equal.
   destruct a, b; cbn in Ha, Hb; try contradiction; cbn [scalar_emb equal_gen P.tv_equal]; try reflexivity;
-    rewrite ?to_N_eqb by assumption;
+    rewrite ?to_N_eqb, ?f64_eq_bridge, ?f32_eq_bridge by assumption;
     match goal with |- (if ?x then true else false) = _ => destruct x; reflexivity end.
 Qed.
 
@@ -712,18 +819,29 @@ Lemma scalar_emb_eqb a b : scalar_ok a -> scalar_ok b ->
 Proof.
   intros Ha Hb.
   destruct a, b; cbn in Ha, Hb; try contradiction; cbn [scalar_emb CacheModel.tv_eqb P.tv_eqb]; try reflexivity.
-  now apply to_N_eqb.
+  - now apply to_N_eqb.
+  - unfold pf32_eq, P.f_peq. now rewrite f32_eq_bridge, !f32_nan_bridge.
+  - unfold pf64_eq, P.f_peq. now rewrite f64_eq_bridge, !f64_nan_bridge.
 Qed.
 
 (** the simulation for scalar values, closed *)
 Definition pipe_update_one_scalar :=
   pipe_update_one_sim scalar_emb scalar_ok scalar_emb_equal scalar_emb_eqb.
 
-(** * Where the models differ *)
+(** * Formerly differences, now agreements
 
-(** proto.Equal on doubles: +0 and -0.  (The same holds for floats.) *)
-Example pipe_proto_equal_zero_differ :
-  P.tv_eqb (P.TVDouble 0) (P.TVDouble (2 ^ 63)) = false /\
+    Up to PipelineModel as of /verif 96c7803 this file recorded two
+    differences ([pipe_zero_update_differ], [pipe_empty_index_differ]):
+    [tv_eqb] compared doubles by bit pattern where proto.Equal uses == (so
+    +0 = -0, NaN = NaN), and an empty index path was a collector panic
+    ([FPanic 2]) where the code returns "invalid path" (update) or deletes
+    everything older (delete).  PipelineModel's owner has repaired both; the
+    inputs are now inside the simulation theorems (doubles and floats are in
+    [scalar_ok]; the empty index path is an ordinary case), and the former
+    witnesses are kept as agreement examples. *)
+
+Example pipe_proto_equal_zero_agree :
+  P.tv_eqb (P.TVDouble 0) (P.TVDouble (2 ^ 63)) = true /\
   CacheModel.tv_eqb (scalar_emb (P.TVDouble 0)) (scalar_emb (P.TVDouble (2 ^ 63))) = true.
 Proof. split; vm_compute; reflexivity. Qed.
 
@@ -737,29 +855,25 @@ Definition ex_rec (ts : Z) (v : P.tv) : P.leafrec :=
 Definition ex_w0 : P.wstate :=
   {| P.w_tree := None; P.w_heap := []; P.w_gen := 0%nat; P.w_sub := None; P.w_fault := None |}.
 
-(** consequence at the level of Target.gnmiUpdate: the same leaf written
-    twice at the same timestamp, first +0 then -0.  The pipeline model stores
-    the second record (and suppresses the announcement: value.Equal(+0,-0));
-    CacheModel rejects it as a duplicate (ErrStale) and keeps +0.  Not
-    reachable in C01's runs (timestamps of a stream strictly increase). *)
-Example pipe_zero_update_differ :
+(** the same leaf written twice at the same timestamp, first +0 then -0: both
+    models reject the second write as a duplicate and keep +0 *)
+Example pipe_zero_update_agree :
   let r0 := ex_rec 5 (P.TVDouble 0) in
   let r1 := ex_rec 5 (P.TVDouble (2 ^ 63)) in
-  let w2 := P.cache_update_one (P.cache_update_one ex_w0 r0) r1 in
+  let w1 := P.cache_update_one ex_w0 r0 in
   let t1 := fst (gnmi_update1 (new_target "dev" (Cfg 0 true [])) 0 (rec_notif scalar_emb r0)) in
-  P.hget (P.w_heap w2) 0%nat = Some r1 /\ P.w_fault w2 = None /\
-  snd (gnmi_update1 t1 0 (rec_notif scalar_emb r1)) = Err err_stale.
+  P.cache_update_one w1 r1 = w1 /\ P.hget (P.w_heap w1) 0%nat = Some r0 /\
+  gnmi_update1 t1 0 (rec_notif scalar_emb r1) = (add_int t1 md_stale_count 1, Err err_stale).
 Proof. cbv zeta. repeat split; vm_compute; reflexivity. Qed.
 
-(** an empty index path (prefix with a target, nothing else): PipelineModel
-    says the collector panics ("path[0] of an empty slice", the code before
-    30e1165), CacheModel and the code return "invalid path".  [ingest] always
-    stamps target AND origin, so the pipeline never gets there. *)
-Example pipe_empty_index_differ :
+(** an empty index path (prefix with a target, nothing else): an error in both
+    models, nothing changes *)
+Example pipe_empty_index_agree :
   let r := {| P.lr_ts := 1; P.lr_prefix := ex_gp "dev" "" []; P.lr_path := ex_gp "" "" [];
               P.lr_val := P.TVInt 1 |} in
-  P.w_fault (P.cache_update_one ex_w0 r) = Some (P.FPanic 2) /\
-  snd (gnmi_update1 (new_target "dev" (Cfg 0 true [])) 0 (rec_notif scalar_emb r)) = Err err_invalid_path.
+  P.cache_update_one ex_w0 r = ex_w0 /\
+  gnmi_update1 (new_target "dev" (Cfg 0 true [])) 0 (rec_notif scalar_emb r)
+  = (new_target "dev" (Cfg 0 true []), Err err_invalid_path).
 Proof. cbv zeta. split; vm_compute; reflexivity. Qed.
 
 (** non-vacuity of the simulation: an accepted update on the empty state *)
